@@ -109,8 +109,9 @@ def finCorner (v : Int) (vt vn : Option Int) : Except Err Corner :=
   if v < 0 || (vt.any (· < 0)) || (vn.any (· < 0)) then .error .panic
   else .ok ⟨v.toNat, vt.map Int.toNat, vn.map Int.toNat⟩
 
-/-- `parseObjFaceComponent`, on characters -/
-def parseCornerL (cs : List Char) : Except Err Corner :=
+/-- `parseObjFaceComponent`, on characters, over the integer parser `intOf` (a parameter only so that the
+    print/parse law can also be stated without the int64 bound; the code is `parseCornerL`) -/
+def parseCornerG (intOf : List Char → Except Err Int) (cs : List Char) : Except Err Corner :=
   if !((splitS cs).length > 1) then
     match intOf cs with
     | .error e => .error e
@@ -138,6 +139,9 @@ def parseCornerL (cs : List Char) : Except Err Corner :=
           | .error e => .error e
           | .ok vn => finCorner v (some vt) (some vn)
         else finCorner v (some vt) none
+
+/-- `parseObjFaceComponent`, on characters (`strconv.Atoi` for the indices) -/
+def parseCornerL (cs : List Char) : Except Err Corner := parseCornerG intOf cs
 
 /-- `parseObjFaceComponent` -/
 def parseCorner (t : String) : Except Err Corner := parseCornerL t.toList
